@@ -44,6 +44,8 @@ def make_case(rng, i):
         spec["mixin"] = "first"
         if "model" not in spec["providers"]:
             spec["providers"].append("model")
+    if not mixin and rng.random() < 0.12:
+        spec["model_shape"] = "libmodel"     # the domain model is a subclass of statemachine.model.Model
     if rng.random() < 0.4 and not mixin:
         c10.assign_values(rng, spec)     # falsy / typed state values (0, '', enum members, tuples)
     vx = lambda sid: c10.value_expr(spec, sid)  # noqa: E731
